@@ -54,6 +54,7 @@ NoState == [doc |-> <<>>, uc |-> NoC, rc |-> NoC, deact |-> FALSE,
 InWin(o) == \/ o.sh.win \in {"none", "in"}
             \/ o.sh.win = "until2" /\ o.t <= 2
             \/ o.sh.win = "from2" /\ o.t >= 2
+            \/ o.sh.win = "until500" /\ o.t <= 500    \* Pipeline: in window at every ledger time, out of it as an unpublished operation
 
 LogEntry(chain, c, o) == [chain |-> chain, c |-> c, ty |-> o.sh.ty, t |-> o.t, n |-> o.n, pub |-> o.pub, p |-> o.sh.p,
                           nc |-> IF o.sh.ty = "U" THEN o.sh.nuc ELSE IF o.sh.ty = "R" THEN o.sh.nrc ELSE NoC]
